@@ -701,6 +701,30 @@ func init() {
 			}
 			call := calls[0]
 			b := call.Block()
+			// the rule is about a dictionary that is CARRIED from one term to the next; when
+			// none is (no loop-carried *Dictionary: each dictionary is loaded for the group of
+			// terms it is then used for) there is no cache that could go stale.  Which terms
+			// fall into a group is decided by values and is not checked.
+			if dictRes0 := tupleParts(call)[0]; dictRes0 != nil {
+				carried := false
+				for _, blk := range fn.Blocks {
+					if !isLoopHeader(blk) {
+						continue
+					}
+					for _, ins := range blk.Instrs {
+						if ph, ok := ins.(*ssa.Phi); ok && types.Identical(ph.Type(), dictRes0.Type()) {
+							// carried across the iterations of the loop in which it is loaded
+							if loopBody(blk)[call.Block()] {
+								carried = true
+							}
+						}
+					}
+				}
+				if !carried {
+					r.ok(key, fnName(fn), c.pos(call.Pos()), "no dictionary is carried from one term to the next: each is loaded for the terms it is used for")
+					return
+				}
+			}
 			if len(b.Preds) != 1 {
 				r.bad(key, fnName(fn), c.pos(call.Pos()), "the dictionary reload is not under a single condition")
 				return
